@@ -60,10 +60,10 @@ Proof. exact ProtoProofs.superseded_chained. Qed.
 Print Assumptions c10_superseded_chained.
 
 (* ---------------------------------------------------------------------------------------------- *)
-(* REGENERATED FROM THE SOURCE ON EVERY RUN (tools/gen -> Generated.g_code; Decisions.v): the decisions the model
+(* REGENERATED FROM THE SOURCE ON EVERY RUN (tools/gen -> Generated.g_code; DecBase.v, Dec*.v): the decisions the model
    takes at these points are the evaluations of the conditions the Go source has there, for all values of their
    variables. *)
-From GK Require Import GExpr Generated Decisions.
+From GK Require Import GExpr Generated DecBase DecProto DecPublish.
 From Coq Require Import String.
 
 (* rootCAS chains the new version behind the previous one iff the previous one has more than two references
@@ -71,7 +71,7 @@ From Coq Require Import String.
 Theorem c10_chain_rule_is_source :
   exists c, decisions "Collection.rootCAS" "prev.refs" = [c] /\
     forall refs : Z, gtrue (upd (upd env0 "prev" 1%Z) "prev.refs" refs) c = Some (Z.ltb 2 refs).
-Proof. exact Decisions.rootcas_chain_decision. Qed.
+Proof. exact DecProto.rootcas_chain_decision. Qed.
 Print Assumptions c10_chain_rule_is_source.
 
 (* rootDecRefUnlocked / rootAddRef: Proto.decref and the pin / handle steps *)
@@ -80,25 +80,25 @@ Theorem c10_decref_is_source :
   exists rest, body "Collection.rootDecRefUnlocked" = SIncDec (GVar "r.refs") false :: SIf [] (GBin ">" (GVar "r.refs") (GInt 0)) [SReturn []] [] :: rest /\
   (Z.lt 1 r -> gexec 10 (upd env0 "r.refs" r) (firstn 2 (body "Collection.rootDecRefUnlocked")) = RRet []) /\
   (r = 1%Z -> exists rho, gexec 10 (upd env0 "r.refs" r) (firstn 2 (body "Collection.rootDecRefUnlocked")) = RFall rho /\ rho "r.refs" = Some 0%Z).
-Proof. exact Decisions.decref_decision. Qed.
+Proof. exact DecProto.decref_decision. Qed.
 Print Assumptions c10_decref_is_source.
 
 Theorem c10_death_marks_unless_superseded_is_source :
   exists c, decisions "Collection.rootDecRefUnlocked" "r.superseded" = [c] /\
     forall sup : bool, gtrue (upd env0 "r.superseded" (b2z sup)) c = Some (negb sup).
-Proof. exact Decisions.death_marks_unless_superseded. Qed.
+Proof. exact DecProto.death_marks_unless_superseded. Qed.
 Print Assumptions c10_death_marks_unless_superseded_is_source.
 
 Theorem c10_death_releases_chain_is_source :
   exists c, decisions "Collection.rootDecRefUnlocked" "r.chainedCollection" = [c] /\
     forall a b : bool, gtrue (upd (upd env0 "r.chainedCollection" (b2z a)) "r.chainedRootNodeLoc" (b2z b)) c = Some (a && b).
-Proof. exact Decisions.death_releases_chain. Qed.
+Proof. exact DecProto.death_releases_chain. Qed.
 Print Assumptions c10_death_releases_chain_is_source.
 
 Theorem c10_addref_is_source :
   exists pre post, body "Collection.rootAddRef" = pre ++ SIncDec (GVar "t.root.refs") true :: post /\
                    Forall (fun s => match s with SIncDec _ _ | SAssign _ _ _ => False | _ => True end) (pre ++ post).
-Proof. exact Decisions.addref_is_increment. Qed.
+Proof. exact DecProto.addref_is_increment. Qed.
 Print Assumptions c10_addref_is_source.
 
 Theorem c10_mutation_publish_order_is_source :
@@ -111,7 +111,7 @@ Theorem c10_mutation_publish_order_is_source :
   count_occ string_dec (call_list "Collection.Delete") "t.unmarkReclaimable" = 2%nat /\
   count_occ string_dec (call_list "Collection.SetItem") "t.rootCAS" = 1%nat /\
   count_occ string_dec (call_list "Collection.Delete") "t.rootCAS" = 1%nat.
-Proof. exact Decisions.mutation_publish_order. Qed.
+Proof. exact DecPublish.mutation_publish_order. Qed.
 Print Assumptions c10_mutation_publish_order_is_source.
 
 (* the version protocol in the source, statement by statement: rootCAS (Proto mcas), rootDecRef, closeCollection (Proto close) *)
@@ -142,5 +142,5 @@ Theorem c10_protocol_functions_are_source :
      SAssign [GVar "t.root"] "=" [GNil];
      SExpr (GCall "t.rootLock.Unlock" []);
      SIf [] (GBin "!=" (GVar "r") GNil) [SExpr (GCall "t.rootDecRef" [GVar "r"])] []].
-Proof. exact Decisions.protocol_functions. Qed.
+Proof. exact DecProto.protocol_functions. Qed.
 Print Assumptions c10_protocol_functions_are_source.
